@@ -61,7 +61,7 @@ type Exec struct {
 	MaxSteps int
 	curFn    string
 	gotos    map[string][]*State // forward gotos waiting for their label (by LabelDecl id), per function activation
-	keepCond *cfront.Node // conditional operator whose alternatives are kept apart (operand of a return)
+	keepCond *cfront.Node        // conditional operator whose alternatives are kept apart (operand of a return)
 }
 
 // LoopInfo records how a loop was handled.
